@@ -4,7 +4,7 @@ from lib.verif import *
 THEOREMS = [
     "C19_checker_sound", "C19_newroute_consistent", "C19_hop_passes_C09",
     "C19_newroute_pays_exact_fees", "C19_get_edge_sound",
-    "C19_search_invariant", "C19_search_sound",
+    "C19_search_invariant_init", "C19_search_invariant", "C19_search_sound",
 ]
 MODULE = "LV.Route.Props"
 TARGETS = ["theories/Route/Props.vo", "theories/Route/Exec.vo",
@@ -231,6 +231,17 @@ def run(ctx):
     env = {}
     if ctx.thorough:
         env["VERIF_ROUNDS"] = "6"
+    if ctx.replay:
+        # re-run exactly the recorded case (same seed, same case index and all
+        # its boundary variants) on the current tree
+        rp = json.load(open(ctx.replay))
+        case = (rp.get("detail") or {}).get("case") or {}
+        env["VERIF_SEED"] = str(rp.get("seed", ctx.seed))
+        if case.get("kind") == "getedge":
+            env["VERIF_ONLY_GE"] = str(case.get("case", 0))
+        elif "case" in case:
+            env["VERIF_ONLY"] = str(case["case"])
+        ctx.note("replaying %s (seed %s, case %s)" % (ctx.replay, env["VERIF_SEED"], case.get("case")))
     rc, trace, out = run_harness(ctx.uid(), "routing", HARNESS, "^TestVerifRoute$",
                                  env=env, timeout=1500)
     rows = read_jsonl(trace)
